@@ -513,7 +513,13 @@ def slice_dim(f, slicedef, fuzzydim=True):
             newlen = vout.shape[axis]
             newdim = outf.createDimension(dimkey, newlen)
             newdim.setunlimited(unlimited)
-            outf.variables[varkey] = vout
+            if isinstance(vout, PseudoNetCDFVariable):
+                outf.variables[varkey] = vout
+            else:
+                # values read from a netCDF file are plain arrays
+                propd = dict([(pk, getattr(var, pk)) for pk in var.ncattrs()])
+                outf.createVariable(varkey, vout.dtype.char, var.dimensions,
+                                    values=vout, **propd)
 
     history = getattr(outf, 'history', '')
     history += historydef
